@@ -404,19 +404,33 @@ def wire_rule(ctx, r):
     if len(lt) != 1:
         r.bad("searcher|line_terminator", "anchor-missing: SearcherBuilder::line_terminator", fn=g)
     else:
-        # decision tree over crlf / null_data via the HIR
-        env = H.LetEnv(g.hir)
-        m = H.mcalls(g.hir, name="line_terminator", recv_ty=SB)
-        ok = bool(m)
-        detail = ""
-        if m:
-            arg = m[0]["args"][0]
-            for crlf, nd in itertools.product([False, True], repeat=2):
-                leaf = H.decide(arg, {"self.crlf": crlf, "self.null_data": nd}, env)
-                want = LT + "::crlf()" if crlf else (LT + "::byte(0)" if nd else LT + "::byte(10)")
-                if leaf != want:
-                    ok = False
-                    detail = "crlf=%s null_data=%s gives %s, expected %s" % (crlf, nd, leaf, want)
+        # value table on the MIR: (self.crlf, self.null_data) ∈ {0,1}²; LineTerminator::crlf() / ::byte(b) answer with their own
+        # name (and byte); the outcome is the value handed to SearcherBuilder::line_terminator
+        from ..flow import Sccp as _Sccp, combinator_model as _cm
+        ok, detail = True, ""
+        for crlf, nd in itertools.product([0, 1], repeat=2):
+            seen = []
+
+            def fm(owner, name, crlf=crlf, nd=nd):
+                if owner == HI and name == "crlf":
+                    return I(crlf)
+                if owner == HI and name == "null_data":
+                    return I(nd)
+                return None
+
+            def inner(call, argv, seen=seen):
+                if call.path == LT + "::crlf":
+                    return V("crlf", None)
+                if call.path == LT + "::byte":
+                    return V("byte", argv[0] if argv else None)
+                if call.path == SB + "::line_terminator":
+                    seen.append(argv[1] if len(argv) > 1 else None)
+                return None
+            _Sccp(g, call_model=_cm(facts, inner, field_model=fm), field_model=fm).run([(0, {})])
+            want = V("crlf", None) if crlf else (V("byte", I(0)) if nd else V("byte", I(10)))
+            if not seen or seen[-1] != want:
+                ok = False
+                detail = "crlf=%s null_data=%s gives %s, expected %s" % (bool(crlf), bool(nd), seen[-1] if seen else "nothing", want)
         if ok:
             r.ok("searcher|line_terminator", "crlf → CRLF, null_data → NUL, else LF (4 rows)", fn=g)
         else:
